@@ -23,3 +23,41 @@ def scalar_kernel_body(macro_text, params=("lhs", "rhs", "out")):
     if "$" in b:
         raise AnchorLost("untranslated macro variable left in kernel body: " + b)
     return b
+
+
+def loop_kernel_body(macro_text, params=("lhs", "rhs", "out")):
+    """Index-loop kernels (`«op»_scalar_lhs_op`, `_scalar_rhs_op`, `_vec_op` of sub/div/compare/logic):
+    K1 strip `unsafe{}`; K2 `(&mut (*$p))`, `(&mut *$p)`, `(&(*$p))`, `(&*$p)`, `(*$p)`, `*$p` -> p;
+    K3 alias bindings `let [mut] a = &[mut] (*$p);` are inlined; the loop header `for i in 0..X.len()` becomes
+    `for i in iter: 0..X.len()` (names the iterator for the invariant; same iteration)."""
+    pat, body = vlib.macro_arm_body(macro_text, 0)
+    names = re.findall(r"\$(\w+)\s*:\s*expr", pat)
+    if len(names) != len(params):
+        raise AnchorLost("kernel macro has %d parameters" % len(names))
+    b = body.strip()
+    m = re.match(r"unsafe\s*\{(.*)\}\s*;?\s*$", b, re.S)
+    if not m:
+        raise AnchorLost("kernel macro body is not `unsafe { .. }`")
+    b = m.group(1).strip()
+    alias = {}
+    def take_alias(mm):
+        alias[mm.group(2)] = mm.group(4)
+        return ""
+    b = re.sub(r"let\s+(mut\s+)?(\w+)\s*=\s*&(mut\s+)?\(\*\$(\w+)\)\s*;", take_alias, b)     # K3
+    for mn, p in zip(names, params):                                                           # K2
+        b = re.sub(r"\(\s*&\s*mut\s*\(\s*\*\s*\$%s\s*\)\s*\)" % mn, p, b)
+        b = re.sub(r"\(\s*&\s*mut\s*\*\s*\$%s\s*\)" % mn, p, b)
+        b = re.sub(r"\(\s*&\s*\(\s*\*\s*\$%s\s*\)\s*\)" % mn, p, b)
+        b = re.sub(r"\(\s*&\s*\*\s*\$%s\s*\)" % mn, p, b)
+        b = re.sub(r"\(\s*\*\s*\$%s\s*\)" % mn, p, b)
+        b = re.sub(r"\*\s*\$%s\b" % mn, p, b)
+    for a, mn in alias.items():
+        p = params[names.index(mn)]
+        b = re.sub(r"\*%s\b" % a, p, b)
+        b = re.sub(r"\b%s\b" % a, p, b)
+    if "$" in b:
+        raise AnchorLost("untranslated macro variable left in kernel body: " + b[:120])
+    b, n = re.subn(r"for i in 0\.\.", "for i in iter: 0..", b)
+    if n != 1 or "zip(" in b or "iter()" in b or "iter_mut()" in b:
+        raise AnchorLost("kernel is not a single index loop")
+    return b
